@@ -7,7 +7,10 @@
  * calling the real uv_async_send.  Handles are malloc'ed and freed in their close callback.
  *
  * stdin:  cfg nh=<n> close=<h,..|-> senders=<h,h;h|-> sig=<t:victim,..|->
- *         (cfg also takes eintr=<n>: EINTR answers allowed per run; cap=<n|->: counter saturation -> EAGAIN)
+ *         (cfg also takes eintr=<n>: EINTR answers allowed per run; cap=<n|->: counter saturation -> EAGAIN;
+ *          nocb=<h,..|->: handles initialised with async_cb == NULL ("just wake the loop"); nh up to MAXH, handle
+ *          numbers are decimal)
+ *         realmany <nh> <nfds> <mode>   real loop / eventfd / epoll, no scheduler: see realmany() below
  *         dfs [maxdepth]           stateless DFS over all schedules with visited-state pruning
  *         rand <seed> <runs>       random schedules, each run to a terminal state
  *         sched [noguard] tok..    one explicit schedule
@@ -28,6 +31,7 @@
 #include <stdint.h>
 #include <stdarg.h>
 #include <sys/eventfd.h>
+#include <sys/syscall.h>
 #include "baton_sched.h"
 #if defined(__has_feature)
 # if __has_feature(address_sanitizer)
@@ -44,18 +48,21 @@
 enum { K_WAIT = 1, K_BEGIN, K_LOADX, K_LOAD, K_STORE, K_XCHG, K_FADD, K_READ, K_WRITE, K_INCB };
 enum { CMD_STEP = 0, CMD_CLOSE = 1, CMD_CLOSECB = 2, CMD_EINTR = 3, CMD_FORK = 4, CMD_STOP = 5 };   /* CMD_CLOSE + 16*h */
 
-#define MAXH 4
+#define MAXH 160
 #define MAXS 4
-#define MAXPROG 8
+#define MAXPROG 400
+#define MAXEN 48                            /* enabled tokens per state: 2 per sender + loop tokens + one per closable handle */
+#define MAXCLOSABLE 32
 
 static uv_loop_t loop_;
 static uv_loop_t* L = &loop_;
 static uv_async_t* H[MAXH];
 static int nh, ns;
 static int closable[MAXH];
+static int nocb[MAXH];                     /* cfg nocb=: uv_async_init(.., NULL) */
 static int prog[MAXS][MAXPROG], nprog[MAXS];
 static int sigvictim[MAXS];               /* -2 = ordinary thread, -1 = interrupts the loop thread, >= 0 sender */
-static char cfgline[256];
+static char cfgline[4096];
 
 /* bookkeeping of the harness (ghost state + monitors), all accessed under the baton */
 static int closing_f[MAXH], unlinked[MAXH], freed[MAXH], released[MAXH];
@@ -74,7 +81,7 @@ static int dead[MAXS];                    /* sender threads that were inside uv_
 static int eintr_budget, ei_left;         /* cfg eintr=<n>: EINTR answers the environment may give per run */
 static int efd_fd = -1;
 static int guard = 1;
-static char effbuf[256];
+static char effbuf[2048];
 static int cleanup_mode;
 
 static int trace_steps;                   /* C09_TRACE=1: announce every step before it runs (to locate a crash) */
@@ -130,7 +137,11 @@ static int sched_atomic(int kind, _Atomic int* p, int v) {
     else eff_add("op%d:%d=%d", kind, v, r);
   } else if (sched_self == 0) {
     int h = handle_of(p);
-    if (kind == K_XCHG && is_pending(p) && v == 0) eff_add("scan h%d =%d", h, r);
+    if (kind == K_XCHG && is_pending(p) && v == 0) {
+      eff_add("scan h%d =%d", h, r);
+      /* a handle without a callback: the observable delivery of a send is the loop thread, woken up, consuming the flag */
+      if (r != 0 && h >= 0 && nocb[h]) { cbs[h]++; seen[h] = pub[h]; }
+    }
     else if (kind == K_STORE && is_pending(p) && v == 1) eff_add("store h%d", h);
     else if (kind == K_LOAD && is_busy(p)) eff_add("spin h%d", h);
     else eff_add("op%d:%d=%d", kind, v, r);
@@ -374,11 +385,11 @@ static void lists_str(char* qs, char* hls) {
   sprintf(p, "]");
 }
 
-static char statebuf[1024];
+static char statebuf[1024 + 80 * MAXH];
 static const char* state_str(void) {
-  char* p = statebuf; char b[32], qs[64], hls[64];
+  char* p = statebuf; char b[32]; static char qs[8 * MAXH + 8], hls[8 * MAXH + 8];
   sched_thread* lt = &sched_t[0];
-  int h, t, n; tok_t en[24];
+  int h, t, n; tok_t en[MAXEN];
   p += sprintf(p, "efd=%llu lpc=", (unsigned long long) efd_count);
   switch (lt->kind) {
     case K_WAIT: p += sprintf(p, "idle"); break;
@@ -446,7 +457,8 @@ static void check_state(void) {
 }
 
 /* ------------------------------------------------------------------ one run */
-static tok_t path[512]; static int pathlen;
+#define MAXPATH 16384
+static tok_t path[MAXPATH]; static int pathlen;
 
 static void start_run(void) {
   int h, t;
@@ -456,7 +468,7 @@ static void start_run(void) {
   cb_of = closing_now = -1; efd_count = 0; ei_left = eintr_budget; fk_left = fork_budget; st_left = stop_budget; L->stop_flag = 0; sp_left = spin_n > 0; memset(dead, 0, sizeof dead); viol[0] = 0; pathlen = 0; effbuf[0] = 0;
   for (h = 0; h < nh; h++) {
     H[h] = malloc(sizeof(uv_async_t));
-    if (uv_async_init(L, H[h], async_cb)) { fprintf(stderr, "uv_async_init failed\n"); exit(3); }
+    if (uv_async_init(L, H[h], nocb[h] ? NULL : async_cb)) { fprintf(stderr, "uv_async_init failed\n"); exit(3); }
     H[h]->data = (void*) (long) h;
   }
   efd_fd = L->async_io_watcher.fd;
@@ -483,7 +495,7 @@ static void end_run(void) {
 }
 
 static int tok_enabled(tok_t k) {
-  tok_t en[24]; int n = enabled_set(en);
+  tok_t en[MAXEN]; int n = enabled_set(en);
   for (int i = 0; i < n; i++) if (en[i].kind == k.kind && en[i].arg == k.arg) return 1;
   return 0;
 }
@@ -499,6 +511,7 @@ static void print_viol(void) {
 static int do_tok(tok_t k, int print) {
   char b[16];
   tok_str(k, b);
+  if (pathlen >= MAXPATH) { fprintf(stderr, "schedule too long\n"); exit(3); }
   path[pathlen++] = k;
   effbuf[0] = 0;
   if (trace_steps) { printf("> %s\n", b); fflush(stdout); }
@@ -548,7 +561,7 @@ static int vis_add(uint64_t k) {          /* 1 = new */
   vis[j] = k; visn++; return 1;
 }
 
-typedef struct { tok_t en[24]; int n, idx; uint64_t sh; } frame_t;
+typedef struct { tok_t en[MAXEN]; int n, idx; uint64_t sh; } frame_t;
 static frame_t stack[512];
 
 static void dfs(int maxdepth) {
@@ -600,8 +613,10 @@ static void rand_runs(uint64_t seed, int runs) {
     int sticky = -1;
     start_run();
     printf("run :: %s\n", state_str());
-    for (int d = 0; d < 400; d++) {
-      tok_t en[24]; int n = enabled_set(en), w[24], tot = 0, i; uint64_t x;
+    int maxd = 400, tt;
+    for (tt = 0; tt < ns; tt++) if (nprog[tt] > 8) maxd += 12 * nprog[tt];   /* long programs (many handles): room for every send and every scan */
+    for (int d = 0; d < maxd; d++) {
+      tok_t en[MAXEN]; int n = enabled_set(en), w[MAXEN], tot = 0, i; uint64_t x;
       if (n == 0) break;
       /* close / close-callback choices are taken less often; a chosen thread tends to keep running for a while
          and then get preempted (preemption inside the few-instruction windows is the point) */
@@ -620,16 +635,19 @@ static void rand_runs(uint64_t seed, int runs) {
 static int parse_tok(const char* w, tok_t* k) {
   k->kind = w[0]; k->arg = 0;
   if (w[0] == 'l' || w[0] == 'f' || w[0] == 'i' || w[0] == 'k' || w[0] == 'x' || w[0] == 'p') return w[1] == 0;
-  if ((w[0] == 's' || w[0] == 'c' || w[0] == 'e') && w[1] >= '0' && w[1] <= '9' && w[2] == 0) { k->arg = w[1] - '0'; return 1; }
+  if ((w[0] == 's' || w[0] == 'c' || w[0] == 'e') && w[1] >= '0' && w[1] <= '9') {
+    char* end; long v = strtol(w + 1, &end, 10);
+    if (*end == 0 && v < (w[0] == 'c' ? MAXH : MAXS)) { k->arg = (int) v; return 1; }
+  }
   return 0;
 }
 
 static void parse_cfg(char* line) {
-  char* w[16]; int n = 0, i;
+  char* w[16]; int n = 0, i, ncl = 0;
   snprintf(cfgline, sizeof cfgline, "%s", line);
   cfgline[strcspn(cfgline, "\r\n")] = 0;
   for (char* p = strtok(line, " \t\r\n"); p && n < 16; p = strtok(NULL, " \t\r\n")) w[n++] = p;
-  nh = ns = 0; free_in_cb = 0; eintr_budget = 0; efd_cap = 0; fork_budget = 0; stop_budget = 0; spin_n = 0; memset(closable, 0, sizeof closable); memset(nprog, 0, sizeof nprog);
+  nh = ns = 0; free_in_cb = 0; eintr_budget = 0; efd_cap = 0; fork_budget = 0; stop_budget = 0; spin_n = 0; memset(closable, 0, sizeof closable); memset(nocb, 0, sizeof nocb); memset(nprog, 0, sizeof nprog);
   for (i = 0; i < MAXS; i++) sigvictim[i] = -2;
   for (i = 1; i < n; i++) {
     char* v = strchr(w[i], '=');
@@ -642,13 +660,23 @@ static void parse_cfg(char* line) {
     else if (!strcmp(w[i], "stop")) stop_budget = atoi(v);
     else if (!strcmp(w[i], "spin")) spin_n = atoi(v);
     else if (!strcmp(w[i], "cap")) efd_cap = (*v == '-') ? 0 : (uint64_t) atoi(v);
-    else if (!strcmp(w[i], "close")) { if (*v != '-') for (char* p = v; *p; p++) if (*p >= '0' && *p <= '9' && *p - '0' < MAXH) closable[*p - '0'] = 1; }
+    else if (!strcmp(w[i], "close") || !strcmp(w[i], "nocb")) {
+      int* dst = w[i][0] == 'c' ? closable : nocb;
+      if (*v != '-') for (char* p = v; *p; ) {
+        if (*p >= '0' && *p <= '9') { long x = strtol(p, &p, 10); if (x < MAXH) dst[x] = 1; else { fprintf(stderr, "cfg too large\n"); exit(3); } }
+        else p++;
+      }
+    }
     else if (!strcmp(w[i], "senders")) {
       if (*v == '-') continue;
       ns = 1;
-      for (char* p = v; *p; p++) {
-        if (*p == ';') ns++;
-        else if (*p >= '0' && *p <= '9' && ns <= MAXS && nprog[ns - 1] < MAXPROG) prog[ns - 1][nprog[ns - 1]++] = *p - '0';
+      for (char* p = v; *p; ) {
+        if (*p == ';') { ns++; p++; }
+        else if (*p >= '0' && *p <= '9') {
+          long x = strtol(p, &p, 10);
+          if (ns > MAXS || nprog[ns - 1] >= MAXPROG || x >= MAXH) { fprintf(stderr, "cfg too large\n"); exit(3); }
+          prog[ns - 1][nprog[ns - 1]++] = (int) x;
+        } else p++;
       }
     } else if (!strcmp(w[i], "sig")) {
       if (*v == '-') continue;
@@ -659,7 +687,8 @@ static void parse_cfg(char* line) {
       }
     }
   }
-  if (nh > MAXH || ns > MAXS) { fprintf(stderr, "cfg too large\n"); exit(3); }
+  for (i = 0; i < MAXH; i++) ncl += closable[i];
+  if (nh > MAXH || ns > MAXS || ncl > MAXCLOSABLE) { fprintf(stderr, "cfg too large\n"); exit(3); }
   printf("%s\n", cfgline);
 }
 
@@ -756,8 +785,146 @@ static void realstop(int stopper) {
   uv_loop_close(&rf_loop);
 }
 
+/* ------------------------------------------------------------------ real loop, many handles (no scheduler; real eventfd + epoll)
+ * realmany <nh> <nfds> <mode>: nh async handles on one loop, plus nfds readable pipes watched with uv_poll_t (so that the
+ * eventfd competes with > 1024 other ready descriptors in uv__io_poll's event batch).  Two rounds; in each round every
+ * handle gets exactly one send while its previous send has been delivered, so exactly one callback per handle and round is owed.
+ * mode 0: the sends are issued on the loop thread between polls (all pending in the same wake-up pass); the loop is run with
+ *         UV_RUN_NOWAIT until every callback ran; a pass that delivers nothing while sends are owed = the loop would block.
+ * mode 1: a second thread issues the sends while the loop thread is blocked in uv_run(UV_RUN_DEFAULT) (guard timer). */
+#include <pthread.h>
+static void nh_reset(void) { nh = 0; }   /* no scheduled handles: every atomic below is the plain one */
+static uv_async_t* rm_h; static int* rm_cb; static uv_poll_t* rm_p; static int (*rm_pipe)[2];
+static int rm_n, rm_stop_at;
+static _Atomic int rm_total;
+static void rm_async_cb(uv_async_t* h) {
+  rm_cb[h - rm_h]++;
+  if (__c11_atomic_fetch_add(&rm_total, 1, __ATOMIC_SEQ_CST) + 1 == rm_stop_at) uv_stop(h->loop);
+}
+static void rm_poll_cb(uv_poll_t* p, int status, int events) {
+  char c; int i = (int) (p - rm_p);
+  (void) status; (void) events;
+  if (syscall(SYS_read, rm_pipe[i][0], &c, 1) < 0) {}
+}
+static void rm_send_round(int round) {
+  int h;
+  for (h = 0; h < rm_n; h++) uv_async_send(&rm_h[round == 1 ? h : rm_n - 1 - h]);
+}
+static void* rm_sender(void* arg) {
+  int waited = 0;
+  (void) arg;
+  usleep(30000);                         /* let the loop thread block in epoll first */
+  rm_send_round(1);
+  while (__c11_atomic_load(&rm_total, __ATOMIC_SEQ_CST) < rm_n && waited++ < 1500) usleep(1000);
+  usleep(20000);
+  if (__c11_atomic_load(&rm_total, __ATOMIC_SEQ_CST) >= rm_n) rm_send_round(2);
+  return NULL;
+}
+static void rm_report(int nfds, int mode, int round, int expect, int passes) {
+  int h, ok = 0, lo = 1 << 30, hi = 0, bad = -1;
+  for (h = 0; h < rm_n; h++) {
+    if (rm_cb[h] == expect) ok++; else if (bad < 0) bad = h;
+    if (rm_cb[h] < lo) lo = rm_cb[h];
+    if (rm_cb[h] > hi) hi = rm_cb[h];
+  }
+  printf("realmany nh=%d nfds=%d mode=%d round=%d ok=%d expect=%d min=%d max=%d firstbad=%d passes=%d\n", rm_n, nfds, mode, round, ok, expect, lo, hi, bad, passes);
+  fflush(stdout);
+}
+static void realmany(int nh, int nfds, int mode) {
+  int h, i, round;
+  if (nh < 1 || nh > 100000 || nfds < 0 || nfds > 8000) { printf("bad-op\n"); return; }
+  nh_reset();
+  uv_loop_init(&rf_loop);
+  rm_n = nh; rm_h = calloc(nh, sizeof *rm_h); rm_cb = calloc(nh, sizeof *rm_cb);
+  rm_p = calloc(nfds + 1, sizeof *rm_p); rm_pipe = calloc(nfds + 1, sizeof *rm_pipe);
+  __c11_atomic_store(&rm_total, 0, __ATOMIC_SEQ_CST);
+  for (h = 0; h < nh; h++) if (uv_async_init(&rf_loop, &rm_h[h], rm_async_cb)) { fprintf(stderr, "uv_async_init failed\n"); exit(3); }
+  for (i = 0; i < nfds; i++) {
+    if (pipe(rm_pipe[i]) || uv_poll_init(&rf_loop, &rm_p[i], rm_pipe[i][0]) || uv_poll_start(&rm_p[i], UV_READABLE, rm_poll_cb)) { fprintf(stderr, "pipe/poll setup failed at %d\n", i); exit(3); }
+    if (syscall(SYS_write, rm_pipe[i][1], "x", 1) != 1) exit(3);
+  }
+  uv_timer_init(&rf_loop, &rf_guard);
+  if (mode == 0) {
+    for (round = 1; round <= 2; round++) {
+      int passes = 0, idle = 0;
+      rm_stop_at = -1;
+      rm_send_round(round);
+      while (__c11_atomic_load(&rm_total, __ATOMIC_SEQ_CST) < round * nh && idle < 2 && passes < nh + 8) {
+        int before = __c11_atomic_load(&rm_total, __ATOMIC_SEQ_CST);
+        uv_run(&rf_loop, UV_RUN_NOWAIT); passes++;
+        idle = (__c11_atomic_load(&rm_total, __ATOMIC_SEQ_CST) == before) ? idle + 1 : 0;
+      }
+      rm_report(nfds, mode, round, round, passes);
+      for (i = 0; i < nfds; i++) if (syscall(SYS_write, rm_pipe[i][1], "y", 1) != 1) exit(3);
+    }
+  } else {
+    pthread_t th;
+    rm_stop_at = 2 * nh;
+    pthread_create(&th, NULL, rm_sender, NULL);
+    uv_timer_start(&rf_guard, rf_guard_cb, 4000, 0);
+    uv_run(&rf_loop, UV_RUN_DEFAULT);
+    uv_timer_stop(&rf_guard);
+    pthread_join(th, NULL);
+    rm_report(nfds, mode, 2, 2, 0);
+  }
+  for (h = 0; h < nh; h++) uv_close((uv_handle_t*) &rm_h[h], NULL);
+  for (i = 0; i < nfds; i++) uv_close((uv_handle_t*) &rm_p[i], NULL);
+  uv_close((uv_handle_t*) &rf_guard, NULL);
+  uv_run(&rf_loop, UV_RUN_DEFAULT);
+  for (i = 0; i < nfds; i++) { close(rm_pipe[i][0]); close(rm_pipe[i][1]); }
+  uv_loop_close(&rf_loop);
+  free(rm_h); free(rm_cb); free(rm_p); free(rm_pipe);
+}
+
+/* real loop, handles without a callback ("just wake the loop"): every one of `sends` consecutive uv_async_send() calls from
+ * another thread, each issued while the loop thread is blocked in uv_run(UV_RUN_DEFAULT), must wake the loop (observed by a
+ * uv_check_t, which runs once per loop iteration right after the poll phase).  nh handles, the sends rotate over them. */
+static _Atomic int rn_iter; static int rn_sends, rn_nh, rn_woken, rn_failed_at;
+static uv_check_t rn_check;
+static void rn_check_cb(uv_check_t* c) { (void) c; __c11_atomic_fetch_add(&rn_iter, 1, __ATOMIC_SEQ_CST); }
+static void* rn_sender(void* arg) {
+  int k;
+  (void) arg;
+  for (k = 0; k < rn_sends; k++) {
+    int c0, waited = 0;
+    usleep(25000);                       /* the loop thread is back in epoll_wait */
+    c0 = __c11_atomic_load(&rn_iter, __ATOMIC_SEQ_CST);
+    uv_async_send(&rm_h[k % rn_nh]);
+    while (__c11_atomic_load(&rn_iter, __ATOMIC_SEQ_CST) == c0 && waited++ < 1200) usleep(1000);
+    if (__c11_atomic_load(&rn_iter, __ATOMIC_SEQ_CST) == c0) { rn_failed_at = k + 1; break; }
+    rn_woken++;
+  }
+  uv_async_send(&rf_h[0]);               /* a handle with a callback ends the run */
+  return NULL;
+}
+static void rn_end_cb(uv_async_t* h) { uv_stop(h->loop); }
+static void realnull(int nh, int sends) {
+  pthread_t th; int h;
+  if (nh < 1 || nh > 1000 || sends < 1 || sends > 1000) { printf("bad-op\n"); return; }
+  nh_reset();
+  uv_loop_init(&rf_loop);
+  rm_h = calloc(nh, sizeof *rm_h); rn_nh = nh; rn_sends = sends; rn_woken = 0; rn_failed_at = 0;
+  __c11_atomic_store(&rn_iter, 0, __ATOMIC_SEQ_CST);
+  for (h = 0; h < nh; h++) if (uv_async_init(&rf_loop, &rm_h[h], NULL)) exit(3);
+  uv_async_init(&rf_loop, &rf_h[0], rn_end_cb);
+  uv_check_init(&rf_loop, &rn_check); uv_check_start(&rn_check, rn_check_cb); uv_unref((uv_handle_t*) &rn_check);
+  uv_timer_init(&rf_loop, &rf_guard);
+  uv_timer_start(&rf_guard, rf_guard_cb, 1500 * sends + 3000, 0);
+  pthread_create(&th, NULL, rn_sender, NULL);
+  uv_run(&rf_loop, UV_RUN_DEFAULT);
+  pthread_join(th, NULL);
+  printf("realnull nh=%d sends=%d woken=%d failed_at=%d\n", nh, sends, rn_woken, rn_failed_at);
+  fflush(stdout);
+  uv_timer_stop(&rf_guard);
+  for (h = 0; h < nh; h++) uv_close((uv_handle_t*) &rm_h[h], NULL);
+  uv_close((uv_handle_t*) &rf_h[0], NULL); uv_close((uv_handle_t*) &rn_check, NULL); uv_close((uv_handle_t*) &rf_guard, NULL);
+  uv_run(&rf_loop, UV_RUN_DEFAULT);
+  uv_loop_close(&rf_loop);
+  free(rm_h);
+}
+
 int main(void) {
-  char line[4096];
+  static char line[65536];
   setvbuf(stdout, NULL, _IOFBF, 1 << 16);
   trace_steps = getenv("C09_TRACE") != NULL;
   sched_init();
@@ -770,6 +937,8 @@ int main(void) {
     if (!strncmp(line, "cfg", 3)) parse_cfg(line);
     else if (!strncmp(line, "realfork", 8)) realfork(atoi(line + 8));
     else if (!strncmp(line, "realstop", 8)) realstop(atoi(line + 8));
+    else if (!strncmp(line, "realmany", 8)) { int a = 0, b = 0, c = 0; sscanf(line + 8, "%d %d %d", &a, &b, &c); realmany(a, b, c); }
+    else if (!strncmp(line, "realnull", 8)) { int a = 0, b = 0; sscanf(line + 8, "%d %d", &a, &b); realnull(a, b); }
     else if (!strncmp(line, "dfs", 3)) { int md = atoi(line + 3); dfs(md > 0 && md < 500 ? md : 300); }
     else if (!strncmp(line, "rand", 4)) { unsigned long long sd = 1; int runs = 1; sscanf(line + 4, "%llu %d", &sd, &runs); rand_runs(sd, runs); }
     else if (!strncmp(line, "sched", 5)) {
